@@ -211,20 +211,26 @@ def _decomprehend(stmts, counter):
             if isinstance(blk, list) and blk and isinstance(blk[0], ast.stmt):
                 setattr(st, field, _decomprehend(blk, counter))
         if isinstance(st, ast.Assign) and len(st.targets) == 1 and isinstance(st.targets[0], ast.Name) and isinstance(st.value, ast.ListComp) \
-                and len(st.value.generators) == 1 and not st.value.generators[0].ifs and not st.value.generators[0].is_async \
-                and any(isinstance(c, ast.Call) for c in ast.walk(st.value.elt)):
-            g = st.value.generators[0]
+                and all(not g.ifs and not g.is_async for g in st.value.generators) \
+                and any(isinstance(c, ast.Call) for c in ast.walk(st.value)):
             counter[0] += 1
             tmp = f'_lc{counter[0]}'
             init = ast.Assign(targets=[st.targets[0]], value=ast.List(elts=[], ctx=ast.Load()))
             body = [ast.Assign(targets=[ast.Name(id=tmp, ctx=ast.Store())], value=st.value.elt),
                     ast.Expr(value=ast.Call(func=ast.Attribute(value=ast.Name(id=st.targets[0].id, ctx=ast.Load()), attr='append', ctx=ast.Load()),
                                             args=[ast.Name(id=tmp, ctx=ast.Load())], keywords=[]))]
-            loop = ast.For(target=g.target, iter=g.iter, body=body, orelse=[])
-            for n_ in (init, loop):
+            # innermost generator first; `for x in (E,)` is a binding, not a loop
+            for g in reversed(st.value.generators):
+                if isinstance(g.iter, ast.Tuple) and len(g.iter.elts) == 1 and isinstance(g.target, ast.Name):
+                    body = [ast.Assign(targets=[g.target], value=g.iter.elts[0])] + body
+                else:
+                    body = [ast.For(target=g.target, iter=g.iter, body=body, orelse=[])]
+            loop = body[0] if len(body) == 1 else None
+            new_stmts = [init] + body
+            for n_ in new_stmts:
                 ast.copy_location(n_, st)
                 ast.fix_missing_locations(n_)
-            out.extend([init, loop])
+            out.extend(new_stmts)
             continue
         out.append(st)
     return out
@@ -258,3 +264,151 @@ def normal(prog, f, skip=(), depth=2):
     h.inlined_helpers = list(getattr(g, 'inlined_helpers', []))
     _cache[k] = h
     return h
+
+
+# ------------------------------------------------------------------------------------------------ guard clauses -> nesting
+def _neg(e):
+    if isinstance(e, ast.UnaryOp) and isinstance(e.op, ast.Not):
+        return e.operand
+    return ast.copy_location(ast.UnaryOp(op=ast.Not(), operand=e), e)
+
+
+def _exits(stmts):
+    return bool(stmts) and isinstance(stmts[-1], (ast.Return, ast.Raise, ast.Continue, ast.Break))
+
+
+def _structure(stmts, tail, loop_tail):
+    """tail: falling off the end of `stmts` ends the function with None; loop_tail: falling off the end ends a loop iteration"""
+    out = []
+    for i, st in enumerate(stmts):
+        last = i == len(stmts) - 1
+        rest = stmts[i + 1:]
+        if isinstance(st, ast.If):
+            if not st.orelse and rest and _exits(st.body):
+                # `if C: ...exit` followed by rest  ==  `if C: ...exit  else: rest`
+                st.orelse = rest
+                last, rest = True, []
+            st.body = _structure(st.body, tail and last, loop_tail and last)
+            st.orelse = _structure(st.orelse, tail and last, loop_tail and last)
+            # an arm that only leaves with nothing (`return` in tail position / `continue` at the end of an iteration) is empty
+            for arm in ('body', 'orelse'):
+                blk = getattr(st, arm)
+                if len(blk) == 1 and last and ((tail and isinstance(blk[0], ast.Return) and (blk[0].value is None or (isinstance(blk[0].value, ast.Constant) and blk[0].value.value is None)))
+                                               or (loop_tail and isinstance(blk[0], ast.Continue))):
+                    setattr(st, arm, [])
+            if not st.body and st.orelse:
+                st.test, st.body, st.orelse = _neg(st.test), st.orelse, []
+            if not st.body and not st.orelse:
+                st.body = [ast.copy_location(ast.Pass(), st)]
+            # `if A: (if B: X)`  ==  `if A and B: X`
+            while not st.orelse and len(st.body) == 1 and isinstance(st.body[0], ast.If) and not st.body[0].orelse:
+                inner = st.body[0]
+                vals = (st.test.values if isinstance(st.test, ast.BoolOp) and isinstance(st.test.op, ast.And) else [st.test]) + \
+                       (inner.test.values if isinstance(inner.test, ast.BoolOp) and isinstance(inner.test.op, ast.And) else [inner.test])
+                st.test = ast.copy_location(ast.BoolOp(op=ast.And(), values=list(vals)), st.test)
+                st.body = inner.body
+            out.append(st)
+            if not rest and not last:
+                break
+            if last:
+                break
+            continue
+        if isinstance(st, (ast.For, ast.While)):
+            st.body = _structure(st.body, False, True)
+            st.orelse = _structure(st.orelse, False, False) if st.orelse else st.orelse
+        elif isinstance(st, ast.Try):
+            st.body = _structure(st.body, False, False)
+            for h in st.handlers:
+                h.body = _structure(h.body, False, False)
+            st.orelse = _structure(st.orelse, False, False) if st.orelse else st.orelse
+            st.finalbody = _structure(st.finalbody, False, False) if st.finalbody else st.finalbody
+        elif isinstance(st, ast.With):
+            st.body = _structure(st.body, tail and last, False)
+        out.append(st)
+    return out
+
+
+def structured(f):
+    """Func-like copy of f with guard clauses turned into nesting: `if C: return` + rest -> `if not C: rest`, `if C: raise` + rest ->
+    `if C: raise else: rest`, `if C: continue` likewise inside loops, nested single ifs merged into one conjunction.  Same
+    behaviour, one shape for the rules that read the conditions a statement depends on."""
+    node = copy.deepcopy(f.node)
+    node.body = _structure(node.body, True, False)
+    ast.fix_missing_locations(node)
+    g = copy.copy(f)
+    g.node = node
+    return g
+
+
+def conjuncts(guards):
+    """[(test, polarity)] with `not` removed into the polarity and positive conjunctions / negative disjunctions split"""
+    out = []
+    for t, pol in guards:
+        while isinstance(t, ast.UnaryOp) and isinstance(t.op, ast.Not):
+            t, pol = t.operand, not pol
+        if isinstance(t, ast.BoolOp) and ((isinstance(t.op, ast.And) and pol) or (isinstance(t.op, ast.Or) and not pol)):
+            out.extend(conjuncts([(v, pol) for v in t.values]))
+        else:
+            out.append((t, pol))
+    return out
+
+
+def propagate_access_paths(f):
+    """Func-like copy of f in which single-store locals bound to an access path of self (`w = self.counters[i]`, indices being
+    constants or loop variables) are replaced by that path wherever they are read (the attributes on the path must not be rebound
+    by plain assignment inside the function... element stores do not move the path)"""
+    node = copy.deepcopy(f.node)
+    stores = {}
+    for n in ast.walk(node):
+        if isinstance(n, ast.Name) and isinstance(n.ctx, (ast.Store, ast.Del)):
+            stores[n.id] = stores.get(n.id, 0) + 1
+    loopvars = {t.id for n in ast.walk(node) if isinstance(n, ast.For) for t in ast.walk(n.target) if isinstance(t, ast.Name)}
+    rebound = {norm(t) for n in ast.walk(node) if isinstance(n, ast.Assign) for t in n.targets if isinstance(t, ast.Attribute)}
+    params = {a.arg for a in node.args.posonlyargs + node.args.args + node.args.kwonlyargs}
+
+    def path(e):
+        if isinstance(e, ast.Name):
+            return e.id == 'self'
+        if isinstance(e, ast.Attribute):
+            return path(e.value)
+        if isinstance(e, ast.Subscript):
+            idx = e.slice.elts if isinstance(e.slice, ast.Tuple) else [e.slice]
+            return path(e.value) and all(isinstance(i, ast.Constant) or (isinstance(i, ast.Name) and i.id in loopvars and stores.get(i.id) == 1) for i in idx)
+        return False
+
+    def root_attr(e):
+        while isinstance(e, ast.Subscript):
+            e = e.value
+        return norm(e)
+    aliases = {}
+    for n in ast.walk(node):
+        if isinstance(n, ast.Assign) and len(n.targets) == 1 and isinstance(n.targets[0], ast.Name) and stores.get(n.targets[0].id) == 1 \
+                and n.targets[0].id not in params and isinstance(n.value, ast.Subscript) and path(n.value) and root_attr(n.value) not in rebound:
+            aliases[n.targets[0].id] = n
+
+    if not aliases:
+        return f
+
+    class S(ast.NodeTransformer):
+        def visit_Name(self, n):
+            if isinstance(n.ctx, ast.Load) and n.id in aliases:
+                return ast.copy_location(copy.deepcopy(aliases[n.id].value), n)
+            return n
+
+    def strip(stmts):
+        out = []
+        for st in stmts:
+            if any(st is a for a in aliases.values()):
+                continue
+            for field in ('body', 'orelse', 'finalbody'):
+                blk = getattr(st, field, None)
+                if isinstance(blk, list) and blk and isinstance(blk[0], ast.stmt):
+                    setattr(st, field, strip(blk) or [ast.Pass()])
+            out.append(st)
+        return out
+    node.body = strip(node.body)
+    node = S().visit(node)
+    ast.fix_missing_locations(node)
+    g = copy.copy(f)
+    g.node = node
+    return g
